@@ -9,8 +9,7 @@ TREE=$(realpath "$1"); shift
 SRC="$(cd "$(dirname "$0")/.." && pwd)"
 SCR=$(mktemp -d /tmp/vscratch.XXXXXX)
 trap 'rm -rf "$SCR"' EXIT
-grep -qs "sorry" "$SRC/lean/SkModel/Gen/Bridge.lean" && NOGEN=1
-rsync -a --exclude .git --exclude 'replay/*' ${NOGEN:+--exclude lean/SkModel/Gen} "$SRC"/ "$SCR"/
+rsync -a --exclude .git --exclude 'replay/*' "$SRC"/ "$SCR"/
 cd "$SCR"
 for id in "$@"; do
   t0=$(date +%s)
